@@ -46,6 +46,20 @@ theorem C20_default_valid_partial (t : Ty) (h : t.WF) (dflt : Init) (hw : InitWT
       (o.res = .ok () → t.dict.validate ⟨s.addr, o.bytes⟩ = .ok ()) :=
   C03_emplace_validates_partial t h dflt hw s hal hlen
 
+/-- **C20, content for every type.** The value a default initialiser produces reads as the content that initialiser specifies —
+the documented default — and therefore does not depend on the address, the length or the previous contents of the buffer:
+two runs into any two buffers read the same. -/
+theorem C20_default_content (t : Ty) (h : t.WF) (dflt : Init) (hw : InitWT t dflt) (s s' : Slice)
+    (hal : s.addr % t.dict.align = 0) (hlen : t.dict.minSize ≤ s.len)
+    (hal' : s'.addr % t.dict.align = 0) (hlen' : t.dict.minSize ≤ s'.len) :
+    ∃ o o', emplaceU t dflt s = .ok o ∧ emplaceU t dflt s' = .ok o' ∧
+      (o.res = .ok () → (t.dict.walk ⟨s.addr, o.bytes⟩).map Val.strip = specV t dflt) ∧
+      (o.res = .ok () → o'.res = .ok () →
+        (t.dict.walk ⟨s.addr, o.bytes⟩).map Val.strip = (t.dict.walk ⟨s'.addr, o'.bytes⟩).map Val.strip) := by
+  obtain ⟨o, ho, _, hc⟩ := emplaceU_content dflt t h hw s hal hlen
+  obtain ⟨o', ho', _, hc'⟩ := emplaceU_content dflt t h hw s' hal' hlen'
+  exact ⟨o, o', ho, ho', hc, fun h1 h2 => by rw [hc h1, hc' h2]⟩
+
 /-- the empty `FlatString` and the empty `FlexVec` (of any item type): `Ok`, valid, whatever was in the buffer -/
 theorem C20_str_default_partial (l : LenTy) (hl : l.Law) (s : Slice) (hal : s.addr % (Ty.str l).dict.align = 0)
     (hlen : (Ty.str l).dict.minSize ≤ s.len) :
